@@ -56,6 +56,10 @@ add("Error:enum_all_ignored", ERRBASE + '#[derive(derive_more::Debug, derive_mor
     [SRC.format(v="M::T::A { source: M::Inner }"), SRC.format(v="M::T::B")])
 add("Error:enum_single_sourced", ERRBASE + '#[derive(derive_more::Debug, derive_more::Display, derive_more::Error)] #[display("t")] pub enum T { A(Inner) }',
     [SRC.format(v="M::T::A(M::Inner)")])
+for nm, marks in (("boxed", ""), ("boxed_send", " + ::core::marker::Send"), ("boxed_send_sync", " + ::core::marker::Send + ::core::marker::Sync")):
+    add(f"Error:{nm}", ERRBASE + '#[derive(derive_more::Debug, derive_more::Display, derive_more::Error)] #[display("t")] '
+        f"pub struct T {{ pub source: ::std::boxed::Box<dyn ::core::error::Error{marks} + 'static> }}",
+        [SRC.format(v="M::T { source: ::std::boxed::Box::new(M::Inner) }")])
 add("Error:generic", ERRBASE + '#[derive(derive_more::Debug, derive_more::Display, derive_more::Error)] #[display("t")] pub struct T<X>(pub X);', [SRC.format(v="M::T(M::Inner)")])
 # ---------------------------------------------------------------- conversions
 add("From:struct", STD_DERIVES + " #[derive(derive_more::From)] pub struct T(pub i32, pub u8);", ['format!("{:?}", <M::T as ::core::convert::From<(i32, u8)>>::from((1, 2)))'])
